@@ -52,6 +52,9 @@ CHECKS = {
  "C10": ("model_checking", "bounded-exhaustive enumeration of option selections (ordered, every attribute split) and body-rule declarations through the six derive functions; rule-set model predicts accept/reject and diagnostic anchors",
          "odometer", "impl emitted iff the rule-set model finds no violated rule; otherwise only diagnostics, one inside the anchor tokens of every violated rule of the first failing layer, none elsewhere",
          "anchors are read from compile_error! token spans; ordered selections <= 3 (quick) / 4 (thorough) of 13 field options, <= 3/4 of 6 variant options, <= 2/3 of 23 container options", "DESIGN.md §4 C10"),
+ "C12": ("exploration", "exhaustive differential over (wrapper chain, target, meta item): W<T>::from_meta vs the wrapper semantics applied to T::from_meta on the same item",
+         "odometer", "10 wrappers x 14 targets and all 100 two-level compositions x 5 targets x 66 items: same acceptance, same value, same error leaves and spans; Result wrappers never fail outwardly; Override word -> Inherit; from_none per wrapper; SpannedValue range; WithOriginal copy; direct from_list for forwarding wrappers",
+         "the inner target's own conversion is the reference", "DESIGN.md §4 C12"),
 }
 PENDING = {}
 props = [json.loads(l) for l in open(os.path.join(V, "properties.jsonl"))]
